@@ -225,7 +225,7 @@ def text_layer(rep, tier):
 # ======================================================================== adapter layer
 
 
-def adapter_factory(shape, skip_default=False, real_text=False):
+def adapter_factory(shape, skip_default=False, real_text=False, shard=None, nshards=1):
     """Like adapter() but warms up concretely first (lazy registrations, cached loaders)."""
     from jsonargparse import ArgumentError  # noqa: F401
 
@@ -237,14 +237,16 @@ def adapter_factory(shape, skip_default=False, real_text=False):
         parser.dump(parser.get_defaults(), skip_none=False)
     except Exception:
         pass
-    return _mk_adapter(parser, sh, skip_default, real_text)
+    return _mk_adapter(parser, sh, skip_default, real_text, shard, nshards)
 
 
-def _mk_adapter(parser, sh, skip_default, real_text):
+def _mk_adapter(parser, sh, skip_default, real_text, shard=None, nshards=1):
     from jsonargparse import ArgumentError
 
     def harness():
         obj = sh.sym()
+        if shard is not None and S.shard(nshards) != shard:
+            return None
         try:
             cfg = parser.parse_object(obj)
         except ArgumentError:
@@ -395,7 +397,10 @@ def main(rep, tier):
             if sh.note == "native":
                 jobs.append(dict(module="c01", func="e2e_factory", kwargs=dict(shape=sh.name, skip_default=sd), timeout=200))
             else:
-                jobs.append(dict(module="c01", func="adapter_factory", kwargs=dict(shape=sh.name, skip_default=sd), timeout=200 if tier == "quick" else 900))
+                from ..shapes import shard_jobs
+
+                for sj in shard_jobs(sh.name):
+                    jobs.append(dict(module="c01", func="adapter_factory", kwargs=dict(shape=sh.name, skip_default=sd, **sj), timeout=200 if tier == "quick" else 900))
     e2e_jobs = []
     if tier == "thorough":
         for sh in shapes:
